@@ -60,7 +60,10 @@ def _run_once(c, timeout):
             break
     return c
 
+_TSCALE = float(os.environ.get("VERIF_TIMEOUT_SCALE", "1") or 1)      # only used when the checks are tried against a seeded change that hangs (tools/): shorter waits
+
 def run_case(c):
+    if _TSCALE != 1: c.timeout = max(5, int(c.timeout * _TSCALE))
     _run_once(c, c.timeout)
     if c.timed_out:   # re-run once with a doubled budget before calling it a hang
         c.reruns = 1
